@@ -7,6 +7,7 @@ Part 4: runs, `_group_p`, `_global_n`, `_filter_fin`, consistency.
 Part 5: `_grouped_ys` / `raw_learners`.
 -/
 import CobaVerif.Model.C18
+import CobaVerif.Generated.C18Modes
 import Mathlib.Tactic.Linarith
 import Mathlib.Tactic.Ring
 import Mathlib.Tactic.FieldSimp
@@ -3471,5 +3472,319 @@ theorem filter_fin_sublist' (r r' : Result) (n : Option NSpec) (lp : Option (Lis
   rw [filterFin_eq_spec r n lp hs hu hw hrefs hall] at h
   obtain ⟨ints', hsub, rfl⟩ := whereFinS_form r r' n lp h
   exact ⟨hsub, List.filter_sublist, List.filter_sublist, List.filter_sublist⟩
+
+
+/-! ## Part 10: `plot_contrast` (Phase 4) -/
+
+theorem groupPairs_mem (ps : List ((Key × Key) × (Rat × Rat))) (e : (Key × Key) × List (Rat × Rat))
+    (he : e ∈ groupPairs ps) : e.1 ∈ ps.map (·.1) ∧ e.2 = (ps.filter (fun q => q.1 = e.1)).map (·.2) := by
+  unfold groupPairs at he
+  obtain ⟨k, hk, rfl⟩ := List.mem_map.mp he
+  exact ⟨(mem_dedup k _).mp hk, rfl⟩
+
+/-- every x of the raw table has at least one pair, and its pairs are exactly the formed pairs with that x -/
+theorem groupPairs_spec (ps : List ((Key × Key) × (Rat × Rat))) (e : (Key × Key) × List (Rat × Rat))
+    (he : e ∈ groupPairs ps) : e.2 ≠ [] ∧ ∀ q, q ∈ e.2 ↔ (e.1, q) ∈ ps := by
+  obtain ⟨h1, h2⟩ := groupPairs_mem ps e he
+  constructor
+  · obtain ⟨a, ha, hk⟩ := List.mem_map.mp h1
+    rw [h2]
+    intro hc
+    have : a.2 ∈ (ps.filter (fun q => q.1 = e.1)).map (·.2) :=
+      List.mem_map.mpr ⟨a, List.mem_filter.mpr ⟨ha, by simpa using hk⟩, rfl⟩
+    rw [hc] at this
+    exact absurd this (by simp)
+  · intro q
+    rw [h2]
+    constructor
+    · intro hq
+      obtain ⟨a, ha, rfl⟩ := List.mem_map.mp hq
+      obtain ⟨ha1, ha2⟩ := List.mem_filter.mp ha
+      have : a.1 = e.1 := by simpa using ha2
+      rw [← this]
+      exact ha1
+    · intro hq
+      exact List.mem_map.mpr ⟨(e.1, q), List.mem_filter.mpr ⟨hq, by simp⟩, rfl⟩
+
+theorem groupPairs_keys_nodup (ps : List ((Key × Key) × (Rat × Rat))) : ((groupPairs ps).map (·.1)).Nodup := by
+  unfold groupPairs
+  rw [List.map_map]
+  have : ((fun (e : (Key × Key) × List (Rat × Rat)) => e.1) ∘ fun k => (k, (ps.filter (fun e => e.1 = k)).map (·.2))) = id := by
+    funext k; rfl
+  rw [this, List.map_id]
+  exact nodup_dedup _
+
+theorem mem_zipWith_pair {α β γ} (f : α → β → γ) (a : List α) (b : List β) (e : γ) (h : e ∈ List.zipWith f a b) :
+    ∃ u ∈ a, ∃ w ∈ b, e = f u w := by
+  induction a generalizing b with
+  | nil => simp at h
+  | cons x xs ih =>
+    cases b with
+    | nil => simp at h
+    | cons y ys =>
+      simp only [List.zipWith_cons_cons, List.mem_cons] at h
+      rcases h with rfl | h
+      · exact ⟨x, by simp, y, by simp, rfl⟩
+      · obtain ⟨u, hu, w, hw, he⟩ := ih ys h
+        exact ⟨u, by simp [hu], w, by simp [hw], he⟩
+
+theorem pairUp_paired (isIndex : Bool) (k : Key) (a b : List ((Key × Key) × Rat))
+    (ha : ∀ u ∈ a, u.1.1 = k) (hb : ∀ w ∈ b, w.1.1 = k) (e : (Key × Key) × (Rat × Rat))
+    (he : e ∈ pairUp isIndex a b) :
+    ∃ u ∈ a, ∃ w ∈ b, u.1.1 = w.1.1 ∧ e.2 = (u.2, w.2) ∧
+      e.1 = (if isIndex then (u.1.2, u.1.2) else (u.1.2, w.1.2)) := by
+  unfold pairUp at he
+  cases isIndex with
+  | true =>
+    simp only [if_true] at he
+    obtain ⟨u, hu, w, hw, rfl⟩ := mem_zipWith_pair _ a b e he
+    exact ⟨u, hu, w, hw, by rw [ha u hu, hb w hw], rfl, by simp⟩
+  | false =>
+    simp only [Bool.false_eq_true, if_false] at he
+    obtain ⟨u, hu, he⟩ := List.mem_flatMap.mp he
+    obtain ⟨w, hw, rfl⟩ := List.mem_map.mp he
+    exact ⟨u, hu, w, hw, by rw [ha u hu, hb w hw], rfl, by simp⟩
+
+/-- only correctly paired values are contrasted: every pair comes from one entry of each side with the same pairing value -/
+theorem contrastPairs_paired (isIndex : Bool) (L1 L2 : List ((Key × Key) × Rat)) (e : (Key × Key) × (Rat × Rat))
+    (he : e ∈ contrastPairs isIndex L1 L2) : PairedFrom isIndex L1 L2 e := by
+  unfold contrastPairs at he
+  obtain ⟨k, _, he⟩ := List.mem_flatMap.mp he
+  obtain ⟨u, hu, w, hw, h⟩ := pairUp_paired isIndex k _ _
+    (fun u hu => by simpa using (List.mem_filter.mp hu).2) (fun w hw => by simpa using (List.mem_filter.mp hw).2) e he
+  exact ⟨u, (List.mem_filter.mp hu).1, w, (List.mem_filter.mp hw).1, h⟩
+
+/-- for a parameter x (`product`): conversely every two entries of the two sides with the same pairing value are contrasted -/
+theorem contrastPairs_complete (L1 L2 : List ((Key × Key) × Rat)) (u w : (Key × Key) × Rat)
+    (hu : u ∈ L1) (hw : w ∈ L2) (h : u.1.1 = w.1.1) :
+    ((u.1.2, w.1.2), (u.2, w.2)) ∈ contrastPairs false L1 L2 := by
+  unfold contrastPairs
+  refine List.mem_flatMap.mpr ⟨u.1.1, ?_, ?_⟩
+  · refine List.mem_filter.mpr ⟨(mem_dedup _ _).mpr (List.mem_map.mpr ⟨u, hu, rfl⟩), ?_⟩
+    simp only [List.contains_iff_mem]
+    rw [h]; exact List.mem_map.mpr ⟨w, hw, rfl⟩
+  · unfold pairUp
+    simp only [Bool.false_eq_true, if_false]
+    exact List.mem_flatMap.mpr ⟨u, List.mem_filter.mpr ⟨hu, by simp⟩,
+      List.mem_map.mpr ⟨w, List.mem_filter.mpr ⟨hw, by simp [h]⟩, rfl⟩⟩
+
+/-- the table of `raw_contrast`, when it exists, is `groupPairs` of the pairs formed from the two sides' values -/
+theorem rawContrastWith_ok (vals) (r : Result) (sels1 sels2 : List (List (Tbl × Option Nat × Int))) (pc : List Col)
+    (x : XSpec) (span : Option Nat) (strX : Bool) (raw : List ((Key × Key) × List (Rat × Rat)))
+    (h : rawContrastWith vals r sels1 sels2 pc x span strX = .ok raw) :
+    ∃ L1 L2, sideValsAll vals r pc x span sels1 = .ok L1 ∧ sideValsAll vals r pc x span sels2 = .ok L2 ∧
+      raw = groupPairs (contrastPairs (x = .index) L1 L2) := by
+  unfold rawContrastWith at h
+  split at h
+  · exact absurd h (by simp)
+  · split at h
+    · exact absurd h (by simp)
+    · split at h
+      · rename_i L1 L2 h1 h2
+        refine ⟨L1, L2, h1, h2, ?_⟩
+        dsimp only at h
+        split at h
+        · exact absurd h (by simp)
+        · split at h
+          · exact absurd h (by simp)
+          · simp only [Except.ok.injEq] at h
+            rw [← h]; rfl
+      · exact absurd h (by simp)
+      · exact absurd h (by simp)
+
+theorem meanL_ok (zs : List Rat) (h : zs ≠ []) : meanL zs = .ok (sumL zs / (zs.length : Rat)) := by
+  unfold meanL divE
+  have : (zs.length : Rat) ≠ 0 := by
+    have : zs.length ≠ 0 := by simpa using h
+    exact_mod_cast this
+  rw [if_neg this]
+
+/-- without an interval object every plotted y is the arithmetic mean of the contrasts of the pairs of its x -/
+theorem contrastPointsFrom_none (mode : CMode) (every : Nat) (raw : List ((Key × Key) × List (Rat × Rat)))
+    (h : ∀ e ∈ raw, e.2 ≠ []) (i : Nat) :
+    contrastPointsFrom mode none every i raw = .ok (raw.map (meanPoint mode)) := by
+  induction raw generalizing i with
+  | nil => rfl
+  | cons e rest ih =>
+    obtain ⟨x, ps⟩ := e
+    have hps : ps ≠ [] := h (x, ps) (by simp)
+    have hm : (ps.map (contrastOf mode)) ≠ [] := by simpa using hps
+    simp only [contrastPointsFrom, calcCi, meanL_ok _ hm, ih (fun e he => h e (by simp [he])) (i + 1)]
+    simp [meanPoint]
+
+/-- an entry without pairs makes the mean raise (`StatisticsError`) — it cannot occur in a `raw_contrast` table -/
+theorem contrastPointsFrom_empty (mode : CMode) (every i : Nat) (x : Key × Key) (rest : List ((Key × Key) × List (Rat × Rat))) :
+    contrastPointsFrom mode none every i ((x, []) :: rest) = .error .zeroDivision := by
+  simp [contrastPointsFrom, calcCi, meanL, divE]
+
+theorem mem_insertX (e q) (l : List ((Key × Key) × List (Rat × Rat))) : q ∈ insertX e l ↔ q = e ∨ q ∈ l := by
+  induction l with
+  | nil => simp [insertX]
+  | cons a as ih =>
+    simp only [insertX]
+    split
+    · simp only [List.mem_cons, ih]; tauto
+    · simp only [List.mem_cons]
+
+theorem mem_sortX (q) (l : List ((Key × Key) × List (Rat × Rat))) : q ∈ sortX l ↔ q ∈ l := by
+  induction l with
+  | nil => simp [sortX]
+  | cons a as ih => simp only [sortX, mem_insertX, ih, List.mem_cons]
+
+theorem mem_orderRaw (xord) (raw : List ((Key × Key) × List (Rat × Rat))) (q) (h : q ∈ orderRaw xord raw) : q ∈ raw := by
+  unfold orderRaw at h
+  cases xord with
+  | none => exact (mem_sortX q raw).mp h
+  | some o =>
+    simp only at h
+    obtain ⟨k, _, hk⟩ := List.mem_filterMap.mp h
+    exact List.mem_of_find?_eq_some hk
+
+theorem mem_insertY (p q : CPoint) (l : List CPoint) : q ∈ insertY p l ↔ q = p ∨ q ∈ l := by
+  induction l with
+  | nil => simp [insertY]
+  | cons a as ih =>
+    simp only [insertY]
+    split
+    · simp only [List.mem_cons]
+    · simp only [List.mem_cons, ih]; tauto
+
+theorem mem_sortY (q : CPoint) (l : List CPoint) : q ∈ sortY l ↔ q ∈ l := by
+  induction l with
+  | nil => simp [sortY]
+  | cons a as ih => simp only [sortY, mem_insertY, ih, List.mem_cons]
+
+theorem insertY_sorted (p : CPoint) (l : List CPoint) (h : l.Pairwise (fun a b => a.y ≤ b.y)) :
+    (insertY p l).Pairwise (fun a b => a.y ≤ b.y) := by
+  induction l with
+  | nil => simp [insertY]
+  | cons a as ih =>
+    simp only [insertY]
+    split
+    · rename_i hpa
+      refine List.Pairwise.cons ?_ h
+      intro b hb
+      rcases List.mem_cons.mp hb with rfl | hb
+      · exact hpa
+      · exact le_trans hpa ((List.pairwise_cons.mp h).1 b hb)
+    · rename_i hpa
+      have hap : a.y ≤ p.y := le_of_lt (not_le.mp hpa)
+      refine List.Pairwise.cons ?_ (ih (List.pairwise_cons.mp h).2)
+      intro b hb
+      rcases (mem_insertY p b as).mp hb with rfl | hb
+      · exact hap
+      · exact (List.pairwise_cons.mp h).1 b hb
+
+theorem sortY_sorted (l : List CPoint) : (sortY l).Pairwise (fun a b => a.y ≤ b.y) := by
+  induction l with
+  | nil => simp [sortY]
+  | cons a as ih => exact insertY_sorted a _ ih
+
+/-- the win / tie / loss lines partition the points: every point lies in exactly one line, decided by where its
+interval `[y-lo, y+hi]` lies relative to the boundary (given `lo, hi ≥ 0`), and each line is ascending in y -/
+theorem splitLines_spec (b : Rat) (pts : List CPoint) (p : CPoint) :
+    splitLines b pts = [sortY (pts.filter (fun p => p.y + p.hi < b)),
+                        sortY (pts.filter (fun p => p.y - p.lo ≤ b ∧ b ≤ p.y + p.hi)),
+                        sortY (pts.filter (fun p => b < p.y - p.lo))] ∧
+    (p ∈ pts → 0 ≤ p.lo → 0 ≤ p.hi →
+      ((p.y + p.hi < b ∧ p ∈ (splitLines b pts)[0]! ∧ p ∉ (splitLines b pts)[1]! ∧ p ∉ (splitLines b pts)[2]!) ∨
+       (p.y - p.lo ≤ b ∧ b ≤ p.y + p.hi ∧ p ∉ (splitLines b pts)[0]! ∧ p ∈ (splitLines b pts)[1]! ∧ p ∉ (splitLines b pts)[2]!) ∨
+       (b < p.y - p.lo ∧ p ∉ (splitLines b pts)[0]! ∧ p ∉ (splitLines b pts)[1]! ∧ p ∈ (splitLines b pts)[2]!))) ∧
+    (∀ line ∈ splitLines b pts, line.Pairwise (fun a c => a.y ≤ c.y) ∧ ∀ q ∈ line, q ∈ pts) := by
+  refine ⟨rfl, ?_, ?_⟩
+  · intro hp hlo hhi
+    simp only [splitLines, List.getElem!_cons_zero, List.getElem!_cons_succ, mem_sortY, List.mem_filter, decide_eq_true_eq, hp, true_and]
+    by_cases h1 : p.y + p.hi < b
+    · left; refine ⟨h1, h1, ?_, ?_⟩
+      · intro hc; linarith [hc.2]
+      · intro hc; linarith
+    · by_cases h3 : b < p.y - p.lo
+      · right; right; refine ⟨h3, h1, ?_, h3⟩
+        intro hc; linarith [hc.1]
+      · right; left
+        exact ⟨not_lt.mp h3, not_lt.mp h1, h1, ⟨not_lt.mp h3, not_lt.mp h1⟩, h3⟩
+  · intro line hl
+    simp only [splitLines, List.mem_cons, List.not_mem_nil, or_false] at hl
+    rcases hl with rfl | rfl | rfl <;>
+      exact ⟨sortY_sorted _, fun q hq => (List.mem_filter.mp ((mem_sortY q _).mp hq)).1⟩
+
+/-- `plot_contrast` over the code's values = over directly computed averages -/
+theorem plotContrast_eq_spec (r : Result) (sels1 sels2) (pc : List Col) (x : XSpec) (span : Option Nat) (strX : Bool)
+    (xord) (mode : CMode) (ci : Option CiFn) (errevery : Option Nat) (kind : XKind) :
+    plotContrast r sels1 sels2 pc x span strX xord mode ci errevery kind =
+    plotContrastS r sels1 sels2 pc x span strX xord mode ci errevery kind := by
+  unfold plotContrast plotContrastS plotContrastWith
+  have := rawContrast_eq_spec r sels1 sels2 pc x span strX
+  unfold rawContrast rawContrastS at this
+  rw [this]
+
+/-- the main statement: without an interval object the plotted points are, for exactly the x labels of the
+`raw_contrast` table, the arithmetic means of the contrasts of correctly paired, directly computed averages -/
+theorem plotContrast_points (r : Result) (sels1 sels2 : List (List (Tbl × Option Nat × Int))) (pc : List Col) (x : XSpec)
+    (span : Option Nat) (strX : Bool) (xord : Option (List (Key × Key))) (mode : CMode) (errevery : Option Nat) (kind : XKind)
+    (lines : List (List CPoint))
+    (h : plotContrast r sels1 sels2 pc x span strX xord mode none errevery kind = .ok lines) :
+    ∃ (L1 L2 : List ((Key × Key) × Rat)) (tbl : List ((Key × Key) × List (Rat × Rat))), sideValsAll allEntriesS r pc x span sels1 = .ok L1 ∧ sideValsAll allEntriesS r pc x span sels2 = .ok L2 ∧
+      (∀ e ∈ tbl, e.2 ≠ [] ∧ ∀ q, q ∈ e.2 ↔ (e.1, q) ∈ contrastPairs (x = .index) L1 L2) ∧
+      (∀ e ∈ contrastPairs (x = .index) L1 L2, PairedFrom (x = .index) L1 L2 e) ∧
+      lines = contrastLines kind (boundaryOf mode) (tbl.map (meanPoint mode)) := by
+  rw [plotContrast_eq_spec] at h
+  unfold plotContrastS plotContrastWith at h
+  split at h
+  · exact absurd h (by simp)
+  · rename_i raw hraw
+    obtain ⟨L1, L2, h1, h2, rfl⟩ := rawContrastWith_ok _ r sels1 sels2 pc x span strX raw hraw
+    have hne : ∀ e ∈ orderRaw xord (groupPairs (contrastPairs (x = .index) L1 L2)), e.2 ≠ [] :=
+      fun e he => (groupPairs_spec _ e (mem_orderRaw _ _ e he)).1
+    simp only [contrastPointsFrom_none mode _ _ hne 0] at h
+    simp only [Except.ok.injEq] at h
+    exact ⟨L1, L2, _, h1, h2, fun e he => groupPairs_spec _ e (mem_orderRaw _ _ e he),
+      fun e he => contrastPairs_paired _ L1 L2 e he, h.symm⟩
+
+
+/-! ## Part 11: binary64 exactness bound (named law + kernel-checked Float witnesses) -/
+
+theorem float_exact_boundary' :
+    ((9007199254740991 : Float) + 1 == 9007199254740992) = true ∧
+    ((9007199254740992 : Float) + 1 == 9007199254740992) = true ∧
+    ((9007199254740992 : Float) - 1 == 9007199254740991) = true ∧
+    ((0.25 : Float) * 9007199254740991 + 0.25 == 0.25 * 9007199254740992) = true := by decide +kernel
+
+theorem window_sum_fits_binary64' (k B : Nat) (vs : List Rat) (h : ∀ x ∈ vs, DyadicBdd k B x)
+    (hb : vs.length * B ≤ 2 ^ 53) (span : Option Nat) (i : Nat) :
+    ∃ m : Int, sumL (window span i vs) = (m : Rat) / 2 ^ k ∧ m.natAbs ≤ 2 ^ 53 := by
+  obtain ⟨m, hm, hb'⟩ := window_sum_dyadic' k B vs h span i
+  exact ⟨m, hm, le_trans hb' hb⟩
+
+
+/-! ## Part 12: translator obligations — the literals extracted from the current `coba/results/core.py` equal the model's -/
+
+theorem plot_modes_match' : Coba.Generated.C18.modes = [modeName .diff, modeName .prob] := by decide
+
+theorem plot_boundaries_match' :
+    Coba.Generated.C18.boundaries.map (fun b => (b.1 : Rat) / (b.2 : Rat)) = [boundaryOf .diff, boundaryOf .prob] := by
+  simp [Coba.Generated.C18.boundaries, boundaryOf]
+
+theorem plot_err_names_match' : Coba.Generated.C18.errNames = errNamesM ∧ Coba.Generated.C18.xSpecial = xSpecialM ∧
+    Coba.Generated.C18.splitOps = splitOpsM ∧ Coba.Generated.C18.skipOffset = skipOffsetM := by decide
+
+theorem plot_contraster_match' (t : Rat × Rat) :
+    contrastOf .diff t = pairProj Coba.Generated.C18.diffIdx.1 t - pairProj Coba.Generated.C18.diffIdx.2 t ∧
+    contrastOf .prob t = (if cmpOp Coba.Generated.C18.probOp
+        (pairProj Coba.Generated.C18.diffIdx.1 t - pairProj Coba.Generated.C18.diffIdx.2 t)
+        ((Coba.Generated.C18.probThreshold.1 : Rat) / (Coba.Generated.C18.probThreshold.2 : Rat)) = true then 1 else 0) := by
+  simp [contrastOf, pairProj, cmpOp, Coba.Generated.C18.diffIdx, Coba.Generated.C18.probOp, Coba.Generated.C18.probThreshold]
+
+theorem plot_split_match' (b : Rat) (pts : List CPoint) :
+    splitLines b pts =
+      [ sortY (pts.filter (fun p => cmpOp (Coba.Generated.C18.splitOps.getD 0 "") (p.y + p.hi) b)),
+        sortY (pts.filter (fun p => cmpOp (Coba.Generated.C18.splitOps.getD 1 "") (p.y - p.lo) b &&
+                                    cmpOp (Coba.Generated.C18.splitOps.getD 2 "") b (p.y + p.hi))),
+        sortY (pts.filter (fun p => cmpOp (Coba.Generated.C18.splitOps.getD 3 "") b (p.y - p.lo))) ] := by
+  simp [splitLines, cmpOp, Coba.Generated.C18.splitOps]
+
+theorem plot_errevery_match' (n : Nat) :
+    errEveryOf true none n = max (n * Coba.Generated.C18.errEveryFactor.1 / Coba.Generated.C18.errEveryFactor.2) 1 := by
+  simp [errEveryOf, Coba.Generated.C18.errEveryFactor]
 
 end Coba.C18
